@@ -567,6 +567,10 @@ def run(ctx):
     ctx.extra['landing'] = {k: v for k, v in agg.items() if k != 'events'}
     check_coq(ctx, batch, 'res')
     level_cases(ctx)
+    # second, independent tie: single-resource programs on the whole-program machine (borrow/claim/nested borrow next
+    # to scopes, cancels, until-interrupts, run(till)): whole-trace correspondence + a monitor on levels
+    from harness import machine_prop
+    machine_prop.run(ctx, [('resources', 120, 3000, {})], ['C12'])
 
 
 def directed_d18(ctx):
